@@ -76,7 +76,21 @@ func opCipherNew(w *World, s *Step) (string, string) {
 	}
 	var c ikeCrypto.IKECrypto
 	res := &callResult{}
-	guard(res, func() { c, res.Err = t.NewCrypto(clone(s.Key)) })
+	keyArg := clone(s.Key)
+	if s.Repeat != 0 && len(s.Key) > 0 {
+		// the caller keeps ONE key buffer and overwrites it for the next object
+		kb, _ := w.ext["c10_keybuf"].([]byte)
+		if len(kb) < 64 {
+			kb = make([]byte, 64)
+			w.ext["c10_keybuf"] = kb
+		}
+		if len(s.Key) <= 64 {
+			keyArg = kb[:len(s.Key)]
+			copy(keyArg, s.Key)
+			w.stats.inc("probe_key_buffer_reused")
+		}
+	}
+	guard(res, func() { c, res.Err = t.NewCrypto(keyArg) })
 	good := len(s.Key) == s.N
 	if w.prop == "C10" {
 		switch {
@@ -438,7 +452,7 @@ func genC10(r *Rng, idx int, tier string) *Scenario {
 		if i > 0 && r.Chance(1, 2) { // a second object holding the same key
 			keyLens[i], keys[i] = keyLens[0], keys[0]
 		}
-		sc.Steps = append(sc.Steps, Step{Op: "cipher_new", Cipher: i, N: keyLens[i], Key: keys[i]})
+		sc.Steps = append(sc.Steps, Step{Op: "cipher_new", Cipher: i, N: keyLens[i], Key: keys[i], Repeat: r.Intn(2)})
 	}
 	if r.Chance(1, 8) {
 		sc.Steps = append(sc.Steps, Step{Op: "cipher_new", Cipher: 50, N: Pick(r, encrSizes...), Key: r.Bytes(Pick(r, 0, 15, 17, 23, 25, 31, 33, 64))})
